@@ -191,6 +191,21 @@ def pointer_rule(ctx, facts, cfg):
             rs = F.roots(f, defs, t['args'][1])
             from_dict = any(r[0] == 'call' and r[1].endswith('SuffixDict::insert') for r in rs)
             pushes.append((e, from_dict, t['at']))
+        if t['k'] == 'call' and (F.call_path(t) or '').endswith('::extend_from_slice') and len(t['args']) > 1:
+            # the two bytes appended at once: extend_from_slice(&[hi, lo])
+            src = t['args'][1]
+            for _ in range(6):
+                d_ = defs.get(src['place']['local']) if src.get('k') in ('copy', 'move') and not [q for q in src['place']['proj'] if q['k'] != 'deref'] else None
+                if d_ and d_[0] == 'rv' and d_[1]['k'] in ('cast', 'use') and d_[1]['x'].get('k') in ('copy', 'move'):
+                    src = d_[1]['x']
+                elif d_ and d_[0] == 'rv' and d_[1]['k'] == 'ref':
+                    src = {'k': 'copy', 'place': d_[1]['place']}
+                else:
+                    break
+            if d_ and d_[0] == 'rv' and d_[1]['k'] == 'aggregate' and d_[1].get('agg') == 'array' and len(d_[1]['ops']) == 2:
+                for o_ in d_[1]['ops']:
+                    rs = F.roots(f, defs, o_)
+                    pushes.append((F.expr(f, defs, o_), any(r[0] == 'call' and r[1].endswith('SuffixDict::insert') for r in rs), t['at']))
 
     def strip(e):
         while e[0] == 'cast':
@@ -205,6 +220,9 @@ def pointer_rule(ctx, facts, cfg):
         if r == ('const', 0xc0) and l[0] == 'binop' and l[1] == 'Shr' and l[3] == ('const', 8) and fd:
             ok_hi = True
     ok_lo = any(strip(e)[3] == ('const', 0xff) and fd for e, fd, at in lo)
+    if not ok_lo:
+        # `ref as u8`: the narrowing cast keeps exactly the low byte
+        ok_lo = any(fd and e[0] == 'cast' and strip(e)[0] in ('local', 'load') for e, fd, at in pushes)
     ctx.instance(rid, 'pointer bytes pushed: (ref >> 8) | 0xc0 then ref & 0xff, ref from the dictionary', ok=ok_hi and ok_lo, site=f['at'])
     if not (ok_hi and ok_lo):
         ctx.violation(rid, WORK, 'pointer-encoding', 'the two pointer bytes are not (ref >> 8) | 0xc0 and ref & 0xff of the dictionary offset; pushes found: %s'
